@@ -81,6 +81,8 @@ func kindOfMode(m filemode.FileMode) string {
 
 type env struct {
 	dir     string
+	trees   []plumbing.Hash // root tree of commit i
+	anyBlob plumbing.Hash   // some blob of the history
 	commits []plumbing.Hash
 	cidx    map[plumbing.Hash]int
 	tick    int64
@@ -158,15 +160,33 @@ func (e *env) hashOf(i int64) plumbing.Hash {
 	if i == -1 {
 		return plumbing.ZeroHash
 	}
+	// 100 / 101: objects that exist but are no commits (root tree of commit 0, a blob)
+	if i == 100 && len(e.trees) > 0 {
+		return e.trees[0]
+	}
+	if i == 101 && !e.anyBlob.IsZero() {
+		return e.anyBlob
+	}
 	if i < 0 || int(i) >= len(e.commits) {
 		return plumbing.NewHash("deadbeefdeadbeefdeadbeefdeadbeefdeadbeef")
 	}
 	return e.commits[i]
 }
 
+func (e *env) deleteObject(h plumbing.Hash) {
+	hs := h.String()
+	os.Remove(filepath.Join(e.dir, ".git", "objects", hs[:2], hs[2:]))
+}
+
 func (e *env) writeWT(f fent) {
 	p := filepath.Join(e.dir, filepath.FromSlash(f.path))
 	os.RemoveAll(p)
+	// an ancestor that is a file or a symlink is replaced by a directory (rm d; mkdir -p d/e)
+	for d := filepath.Dir(p); len(d) > len(e.dir); d = filepath.Dir(d) {
+		if fi, err := os.Lstat(d); err == nil && !fi.IsDir() {
+			os.Remove(d)
+		}
+	}
 	if err := os.MkdirAll(filepath.Dir(p), 0o755); err != nil {
 		panic(err)
 	}
@@ -357,6 +377,8 @@ func classify(err error) string {
 		return "object_not_found"
 	case strings.Contains(err.Error(), "already exists"):
 		return "branch_exists"
+	case errors.Is(err, git.ErrEmptyCommit):
+		return "empty_commit"
 	}
 	return "other"
 }
@@ -395,9 +417,14 @@ func run(c lib.Case) (lib.Out, any) {
 	}
 	for i, cm := range c.L("commits") {
 		ents := entsOf(lib.AsCase(cm).L("tree"))
-		h := e.storeCommit(r, e.storeTree(r, ents, ""), i)
+		th := e.storeTree(r, ents, "")
+		h := e.storeCommit(r, th, i)
+		e.trees = append(e.trees, th)
 		e.commits = append(e.commits, h)
 		e.cidx[h] = i
+		if e.anyBlob.IsZero() && len(ents) > 0 {
+			e.anyBlob = e.storeBlob(r, ents[0].content)
+		}
 	}
 	for _, x := range c.L("refs") {
 		t, _ := x.([]any)
@@ -434,6 +461,34 @@ func run(c lib.Case) (lib.Out, any) {
 	gitMode := c.S("git")
 	if gitMode == "" {
 		gitMode = "forced"
+	}
+	// corrupt the object store as the case asks: root trees, nested trees, blobs
+	for _, x := range c.L("notree") {
+		if n := int(lib.Case{"n": x}.I("n")); n >= 0 && n < len(e.trees) {
+			e.deleteObject(e.trees[n])
+		}
+	}
+	for _, x := range c.L("noobject") {
+		t, _ := x.([]any)
+		n := int(lib.Case{"n": t[0]}.I("n"))
+		path, _ := t[1].(string)
+		if n < 0 || n >= len(e.commits) {
+			continue
+		}
+		if r2, err := git.PlainOpen(dir); err == nil {
+			if co, err := r2.CommitObject(e.commits[n]); err == nil {
+				if tr, err := co.Tree(); err == nil {
+					if en, err := tr.FindEntry(path); err == nil {
+						e.deleteObject(en.Hash)
+					}
+				}
+			}
+		}
+	}
+	for _, x := range c.L("nocommit") {
+		if n := int(lib.Case{"n": x}.I("n")); n >= 0 && n < len(e.commits) {
+			e.deleteObject(e.commits[n])
+		}
 	}
 	var outs []lib.Out
 	type step struct {
@@ -482,6 +537,22 @@ func run(c lib.Case) (lib.Out, any) {
 			mode := map[string]git.ResetMode{"mixed": git.MixedReset, "hard": git.HardReset, "merge": git.MergeReset,
 				"soft": git.SoftReset, "keep": git.KeepReset}[op.S("mode")]
 			err = w.Reset(&git.ResetOptions{Commit: e.hashOf(op.I("commit")), Mode: mode})
+		case "add", "commit":
+			porcelain = true
+			r, oerr := git.PlainOpen(dir)
+			if oerr != nil {
+				panic(oerr)
+			}
+			w, werr := r.Worktree()
+			if werr != nil {
+				panic(werr)
+			}
+			if op.S("op") == "add" {
+				_, err = w.Add(op.S("path"))
+			} else {
+				sig := &object.Signature{Name: "v", Email: "v@v", When: time.Unix(1000001000, 0).UTC()}
+				_, err = w.Commit("c\n", &git.CommitOptions{Author: sig, Committer: sig, All: op.Bool("all")})
+			}
 		default:
 			panic("unknown op " + op.S("op"))
 		}
